@@ -96,6 +96,10 @@ Init == st = EmptyHG /\ last = [op |-> OpDefaults, res |-> "init"]
 Next == \E op \in Alphabet : \E ord \in Ords(op) : \E o \in Outcomes(st, op, ord) :
            st' = o.st /\ last' = [op |-> op, res |-> o.res]
 Spec == Init /\ [][Next]_vars
+\* the same graph without the op history variable: used to emit each distinct state once
+NextE == \E op \in Alphabet : \E ord \in Ords(op) : \E o \in Outcomes(st, op, ord) :
+            st' = o.st /\ UNCHANGED last
+SpecE == Init /\ [][NextE]_vars
 
 AttrCount(S) == SumSet(LAMBDA n : Cardinality(DOMAIN S.nattr[n]), DOMAIN S.nattr)
                 + SumSet(LAMBDA e : Cardinality(DOMAIN S.eattr[e]), DOMAIN S.eattr)
